@@ -184,15 +184,22 @@ def record_findvwLTE(hy):
 CLASS_KEY = "lte-crude-guess-at-vMin"
 
 
-def crude_guess_class(th, hy, aux):
-    """The registered defect class, measured on the live object.  All of:
-      (b) not (hy.vMin > hy.template.vMin): on the unchanged code the guard
-          `vw > self.template.vMin` of matchDeflagOrHyb is legitimately False at vw == vMin;
-      (c) the top-level matchDeflagOrHyb(vMin) of findvwLTE started scipy root from the crude
-          guess [Tn, 0.99 Tn] and did not converge (success False, or it raised).
+def crude_guess_class(hy, aux, judge):
+    """The registered defect class, measured on the live object.  The recorded mechanism: the
+    solver's vMin (a brentq root, rtol) lands a hair BELOW the template model's vMin, so the
+    guard `vw > self.template.vMin` of matchDeflagOrHyb is False at vw == vMin, scipy root
+    starts from the crude guess [Tn, 0.99 Tn] and fails.  All of:
+      (b) 0 < template.vMin - hy.vMin <= 10 rtol  (root-finder noise; an EXACT equality or a
+          larger gap is not the recorded mechanism);
+      (b') hy.vMin agrees with the independently computed vMin (relative 1e-4);
+      (c) the top-level matchDeflagOrHyb(vMin) of findvwLTE started scipy root from
+          [Tn, 0.99 Tn] (to 1e-9) and did not converge (success False, or it raised).
     (a) -- wrong sentinel / exception although the mismatch is positive at the smallest
     allowed velocity -- is established by the caller."""
-    if hy.vMin > hy.template.vMin:
+    gap = hy.template.vMin - hy.vMin
+    if not 0 < gap <= 10 * hy.rtol:
+        return False
+    if judge.vMin is None or abs(hy.vMin - judge.vMin) > 1e-4 * judge.vMin:
         return False
     at = [a for a in aux if a["vw"] == float(hy.vMin)]
     if not at:
@@ -414,7 +421,7 @@ def certified(ctx, proved):
     if not proved:
         return
     hdr = EVAL_HDR % dict(defs="\n".join(defs + tdefs), envs=" ".join(names))
-    nfiles = 8
+    nfiles = 4
     import subprocess
     procs = []
     for j in range(nfiles):
@@ -475,6 +482,7 @@ Ltac fields := cbv beta iota zeta delta [t_shootingInLTE t_alN t_psiN t_mu t_nu 
             res = float(tm.findvwLTE())
         except Exception as ex:
             ctx.count("template_findvwLTE_raises", spec)
+            UNJUDGED.append(("template findvwLTE raised %s" % repr(ex)[:100], dict(spec=spec)))
             continue
         finally:
             HT.root_scalar = orig
@@ -528,29 +536,125 @@ Ltac fields := cbv beta iota zeta delta [t_shootingInLTE t_alN t_psiN t_mu t_nu 
 # ----------------------------------------------------------------------------------------
 # direct validation
 
-def mismatch(hy, vw):
-    """entropy mismatch T+g+/(T-g-) - 1 of the matching that reaches Tn (findMatching)"""
+def own_vJ(eos):
+    """Jouguet velocity from the spec's EOS alone: extremum of v+ over T- on the detonation
+    branch (v+ v- and v+/v- from the junction conditions, T+ = Tn)"""
+    from scipy.optimize import minimize_scalar
+    Tn = eos.Tnucl
+    pH = eos.pHighT(Tn)
+    eH = eos.wHighT(Tn) - pH
+
+    def vp2(Tm):
+        pL = eos.pLowT(Tm)
+        eL = eos.wLowT(Tm) - pL
+        return (pH - pL) * (pH + eL) / ((eH - eL) * (eH + pL))
+    # the detonation branch: v+^2 in (0, 1); its first local minimum in T- is the Jouguet point
+    grid = [Tn * 10 ** (k / 600.0) for k in range(601)]
+    vals = []
+    for T in grid:
+        try:
+            x = vp2(T)
+        except ZeroDivisionError:
+            x = float("nan")
+        vals.append(x if 0 < x < 1 else float("inf"))
+    k = next((i for i in range(1, len(vals) - 1) if vals[i] < float("inf") and
+              vals[i] <= vals[i - 1] and vals[i] <= vals[i + 1] and
+              vals[i + 1] < float("inf")), None)
+    if k is None:
+        raise ValueError("no Jouguet point found by the independent computation")
+    r = minimize_scalar(vp2, bounds=(grid[k - 1], grid[k + 1]), method="bounded",
+                        options=dict(xatol=1e-13 * Tn))
+    return math.sqrt(r.fun)
+
+
+def own_vMin(eos, vJ, tmin=0.01, vlow=1e-3):
+    """smallest wall velocity with a deflagration: strongest shock (v+ = 0, T- at the lower
+    temperature bound) reaching Tn, by the independent xi-integrator"""
+    from scipy.optimize import brentq
+    Tn = eos.Tnucl
+    target = eos.pLowT(tmin * Tn)
+    try:
+        Tps = brentq(lambda T: eos.pHighT(T) - target, tmin * Tn, 10 * Tn, xtol=1e-300,
+                     rtol=1e-13)
+    except ValueError:
+        return vlow
+    f = lambda vw: S.oracle_Tn(eos, vw, 0.0, Tps)[0] - Tn
+    try:
+        a, b = f(vlow), f(vJ)
+        if a * b > 0:
+            return vlow
+        return max(vlow, brentq(f, vlow, vJ, xtol=1e-12, rtol=1e-10))
+    except Exception:
+        return None
+
+
+class Judge:
+    """Everything the verdict needs, computed without the object under test: the EOS from the
+    spec's analytic p, p', p'', the window ends vMin / vJ, and the validity of a matching
+    (fluxes conserved across the wall) instead of Hydrodynamics.success."""
+
+    def __init__(self, spec, tmin=0.01):
+        self.eos = S.OwnEOS(spec)
+        self.vJ = own_vJ(self.eos)
+        self.vMin = own_vMin(self.eos, self.vJ, tmin)
+        self.lo = None if self.vMin is None else max(self.vMin + MARGIN_V, S.SLOW_WALL)
+        self.hi = self.vJ - MARGIN_TOP
+
+    def fluxes(self, vp, vm, Tp, Tm):
+        e = self.eos
+        wp, wm = float(e.wHighT(Tp)), float(e.wLowT(Tm))
+        pp, pm = float(e.pHighT(Tp)), float(e.pLowT(Tm))
+        ef = abs(wp * gam(vp) ** 2 * vp - wm * gam(vm) ** 2 * vm) / abs(wp * gam(vp) ** 2 * vp)
+        mf = abs(wp * gam(vp) ** 2 * vp ** 2 + pp - wm * gam(vm) ** 2 * vm ** 2 - pm) / (
+            abs(wp) + abs(pp))
+        return ef, mf
+
+    def valid(self, vp, vm, Tp, Tm):
+        if vp is None or not (0 < vp < 1 and 0 < vm < 1 and Tm > 0 and Tp > 0):
+            return False
+        ef, mf = self.fluxes(vp, vm, Tp, Tm)
+        return ef < 1e-5 and mf < 1e-5
+
+
+UNJUDGED = []
+
+
+def mismatch(hy, vw, judge, confirm=False):
+    """entropy mismatch T+g+/(T-g-) - 1 of the matching that findMatching returns at vw.
+    None if there is no valid matching: validity = fluxes conserved with the judge's own EOS
+    (not Hydrodynamics.success); confirm=True: the flow from it also reaches Tn (oracle)."""
     try:
         (vp, vm, Tp, Tm), fb = S.find_matching(hy, vw)
     except Exception:
         return None
-    if vp is None or not hy.success or fb:
+    if not judge.valid(vp, vm, Tp, Tm):
         return None
-    if not (0 <= vp < 1 and 0 <= vm < 1 and Tm > 0):
-        return None
+    if confirm:
+        try:
+            tn, _ = S.oracle_Tn(judge.eos, vw, vp, Tp)
+        except Exception:
+            return None
+        if S.rel(tn, hy.Tnucl) > 1e-3:
+            return None
     return Tp * gam(vp) / (Tm * gam(vm)) - 1
 
 
-def scan(ctx, hy, n):
-    lo, hi = S.window_lo(hy), hy.vJ - MARGIN_TOP
-    if not lo < hi:
+def scan(ctx, hy, judge, n):
+    lo, hi = judge.lo, judge.hi
+    if lo is None or not lo < hi:
         return []
     out = []
     for i in range(n):
         v = lo + (hi - lo) * i / (n - 1)
-        out.append((v, mismatch(hy, v)))
+        out.append((v, mismatch(hy, v, judge)))
         ctx.count("scan_velocity")
     return out
+
+
+def lte_residual(hy, vw):
+    """shockTnuclDiff of findvwLTE rebuilt from the public methods (relative to Tn)"""
+    vp, _vm, Tp, _Tm = hy.matchDeflagOrHyb(vw)
+    return hy.solveHydroShock(vw, vp, Tp) / hy.Tnucl - 1.0
 
 
 def spec_id(spec):
@@ -571,77 +675,105 @@ def build_with_history(spec, rtol, atol, later_Tn):
     return th, hy
 
 
-def check_lte(ctx, spec, rtol=1e-6, atol=1e-10, gated=True, later_Tn=None):
+def check_lte(ctx, spec, rtol=1e-6, atol=1e-10, gated=True, later_Tn=None, tmax=10.0,
+              tmin=0.01, prebuilt=None, tag=""):
     """returns a list of failures (what, replay, key); reported by the caller.  Keys of
     sentinel / exception failures name the input: a registered finding for one equation of
     state must not hide the same symptom on another one.  With `later_Tn` the solver is
-    evaluated after the model object went on to another nucleation temperature."""
+    evaluated after the model object went on to another nucleation temperature; `prebuilt`
+    = (th, hy) built by the caller (other call paths / call histories)."""
     fails = []
     sid = "%s:%s" % (spec["kind"], spec_id(spec))
     if (rtol, atol) != (1e-6, 1e-10):
         sid += ":rtol=%g,atol=%g" % (rtol, atol)
+    if (tmax, tmin) != (10.0, 0.01):
+        sid += ":tmax=%g,tmin=%g" % (tmax, tmin)
     if later_Tn is not None:
         sid += ":history(model.Tnucl->%g)" % later_Tn
+    sid += tag
+    case = dict(spec=spec, rtol=rtol, atol=atol)
+    if (tmax, tmin) != (10.0, 0.01):
+        case.update(tmax=tmax, tmin=tmin)
     try:
-        if later_Tn is None:
-            th, hy = S.make_hydro(spec, rtol, atol)
+        if prebuilt is not None:
+            th, hy = prebuilt
+        elif later_Tn is None:
+            th, hy = S.make_hydro(spec, rtol, atol, tmax, tmin)
         else:
             th, hy = build_with_history(spec, rtol, atol, later_Tn)
     except Exception as ex:
         ctx.count("eos_skipped", spec)
+        UNJUDGED.append(("eos_skipped: constructor raised %s" % repr(ex)[:100], case))
         return fails, None
-    if not S.window_lo(hy) < hy.vJ - 2e-2:
-        ctx.count("eos_no_window", spec)
+    try:
+        judge = Judge(spec, tmin)
+    except Exception as ex:
+        ctx.count("eos_skipped", spec)
+        UNJUDGED.append(("eos_skipped: independent window ends not computable (%s)" %
+                         repr(ex)[:80], case))
         return fails, None
     Tn = hy.Tnucl              # the solver's own nucleation temperature
-    case = dict(spec=spec, rtol=rtol, atol=atol)
     if later_Tn is not None:
         case["later_Tn"] = later_Tn
-        if Tn != spec["Tn"]:
-            fails.append(("Hydrodynamics.Tnucl = %r after the model object moved on to Tn=%r "
-                          "(built at %r); %s" % (Tn, later_Tn, spec["Tn"], spec),
-                          dict(kind="history", **case), "history-Tnucl"))
+    if float(Tn) != float(spec["Tn"]):
+        fails.append(("Hydrodynamics.Tnucl = %r for a solver built at %r; %s" % (
+            Tn, spec["Tn"], spec), dict(kind="history", **case), "history-Tnucl"))
+    # window ends: the solver's own against the independent ones
+    if judge.vMin is None:
+        ctx.count("eos_skipped", spec)
+        UNJUDGED.append(("eos_skipped: independent vMin not computable", case))
+        return fails, None
+    worst("vJ_vs_independent", abs(hy.vJ - judge.vJ), case)
+    worst("vMin_vs_independent", abs(hy.vMin - judge.vMin), case)
+    if abs(hy.vJ - judge.vJ) > 1e-5 or abs(hy.vMin - judge.vMin) > 1e-4:
+        fails.append(("window ends of the solver differ from the independent ones: vJ %.8f vs "
+                      "%.8f, vMin %.8f vs %.8f; %s" % (hy.vJ, judge.vJ, hy.vMin, judge.vMin,
+                                                       spec),
+                      dict(kind="window", **case), "window-ends:" + spec["kind"]))
+    if not judge.lo < judge.vJ - 2e-2:
+        ctx.count("eos_no_window", spec)
+        return fails, None
     try:
         res, events, aux = record_findvwLTE(hy)
     except LteRaised as lr:
-        E = mismatch(hy, S.window_lo(hy))
+        E = mismatch(hy, judge.lo, judge, confirm=True)
         key = "raises:" + sid
-        if E is not None and E > 0 and crude_guess_class(th, hy, lr.aux):
+        if E is not None and E > MARGIN_E and crude_guess_class(hy, lr.aux, judge):
             key = CLASS_KEY
         fails.append(("findvwLTE raised %s (mismatch %s at vw=%.6f); %s" % (
-            repr(lr.exc)[:160], "n/a" if E is None else "%+.3e" % E, S.window_lo(hy), spec),
+            repr(lr.exc)[:160], "n/a" if E is None else "%+.3e" % E, judge.lo, spec),
             dict(kind="raise", **case), key))
         return fails, None
     term, why = model_case(th, hy, res, events)
     nscan = ctx.n(64, 512)
+    # facts about the recorded run that the decision model takes as hypotheses
+    roots = [e for e in events if e[0] == "root" and e[1] == "shockTnuclDiff"]
+    for e in roots:
+        a, b = e[2]
+        if not a <= b:
+            fails.append(("findvwLTE called its root finder on the inverted bracket (vMin=%.8f, "
+                          "vmax=%.8f) and returned %.8f; %s" % (a, b, res, spec),
+                          dict(kind="bracket", **case), "lte-inverted-bracket:" + sid))
     if 0 < res < 1:
-        ctx.count("lte_interior", case, bucket=spec["kind"])
+        ctx.count("lte_interior" + tag, case, bucket=spec["kind"])
         vp, vm, Tp, Tm = hy.matchDeflagOrHyb(res)
-        ok = bool(hy.success)
         ent = abs(Tp * gam(vp) / (Tm * gam(vm)) - 1)
-        wp, wm = float(th.wHighT(Tp)), float(th.wLowT(Tm))
-        pp, pm = float(th.pHighT(Tp)), float(th.pLowT(Tm))
-        eflux = abs(wp * gam(vp) ** 2 * vp - wm * gam(vm) ** 2 * vm) / (
-            wp * gam(vp) ** 2 * vp)
-        mflux = abs(wp * gam(vp) ** 2 * vp ** 2 + pp - wm * gam(vm) ** 2 * vm ** 2 - pm) / (
-            abs(wp) + abs(pp))
+        eflux, mflux = judge.fluxes(vp, vm, Tp, Tm)
         worst("entropy", ent, case)
         worst("energy_flux", eflux, case)
         worst("momentum_flux", mflux, case)
         d = dict(kind="interior", vw=res, vp=vp, vm=vm, Tp=Tp, Tm=Tm, **case)
-        if not ok:
-            fails.append(("vwLTE=%.8f: the matching at the returned velocity did not converge "
-                          "(Hydrodynamics.success False); %s" % (res, spec), d,
-                          "lte-matching-unconverged"))
         if ent > TOL_ENT:
             fails.append(("vwLTE=%.8f: T+g+/(T-g-)-1 = %.3e at the returned matching; %s" % (
                 res, ent, spec), d, "entropy:" + spec["kind"]))
         if eflux > TOL_FLUX or mflux > TOL_FLUX:
             fails.append(("vwLTE=%.8f: fluxes across the wall differ: energy %.2e momentum "
-                          "%.2e (relative); %s" % (res, eflux, mflux, spec), d,
+                          "%.2e (relative)%s; %s" % (
+                              res, eflux, mflux, "" if hy.success else
+                              " [Hydrodynamics.success False]", spec), d,
                           "fluxes:" + spec["kind"]))
         try:
-            tn, _ = S.oracle_Tn(th, res, vp, Tp)
+            tn, _ = S.oracle_Tn(judge.eos, res, vp, Tp)
             worst("Tn_boundary", S.rel(tn, Tn), case)
             if S.rel(tn, Tn) > TOL_TN:
                 fails.append(("vwLTE=%.8f: the flow from (v+,T+)=(%.8f,%.8f) reaches T=%.10g "
@@ -652,29 +784,32 @@ def check_lte(ctx, spec, rtol=1e-6, atol=1e-10, gated=True, later_Tn=None):
             fails.append(("vwLTE=%.8f: no shock front ahead of the returned matching (%s); %s"
                           % (res, ex, spec), d, "no-front"))
         # the matching that findMatching produces at this velocity conserves entropy
-        E = mismatch(hy, res)
+        E = mismatch(hy, res, judge)
         if E is None:
-            fails.append(("vwLTE=%.8f: findMatching has no converged solution at the returned "
+            fails.append(("vwLTE=%.8f: findMatching has no valid matching at the returned "
                           "velocity; %s" % (res, spec), d, "lte-findMatching"))
         else:
             worst("entropy_of_findMatching", abs(E), case)
             if abs(E) > TOL_ENT_SHOOT:
                 fails.append(("vwLTE=%.8f: findMatching there has T+g+/(T-g-)-1 = %.3e; %s" % (
                     res, E, spec), d, "entropy-findMatching:" + spec["kind"]))
-        if not (hy.vMin <= res <= hy.vJ):
-            fails.append(("vwLTE=%.8f outside [vMin, vJ] = [%.6f, %.6f]; %s" % (
-                res, hy.vMin, hy.vJ, spec), d, "lte-outside-window"))
+        if not (judge.vMin - 1e-4 <= res <= judge.vJ + 1e-5):
+            fails.append(("vwLTE=%.8f outside the independent window [vMin, vJ] = [%.6f, %.6f]"
+                          "; %s" % (res, judge.vMin, judge.vJ, spec), d, "lte-outside-window"))
     elif res == 1:
-        sc = scan(ctx, hy, nscan)
+        sc = scan(ctx, hy, judge, nscan)
         vals = [(v, e) for v, e in sc if e is not None]
         top = vals[-1][1] if vals else None
         if len(vals) < nscan // 2 or top is None:
             ctx.count("lte_runaway_unscannable", case)
+            UNJUDGED.append(("runaway sentinel: only %d of %d scanned velocities have a valid "
+                             "matching" % (len(vals), nscan), case))
         elif abs(top) < MARGIN_E:
             ctx.count("lte_near_threshold", case, bucket="runaway")
         else:
-            ctx.count("lte_runaway", case, bucket=spec["kind"])
-            neg = [(v, e) for v, e in vals if e < 0]
+            ctx.count("lte_runaway" + tag, case, bucket=spec["kind"])
+            neg = [(v, e) for v, e in vals if e < -MARGIN_E]
+            neg = [(v, e) for v, e in neg if mismatch(hy, v, judge, confirm=True) is not None]
             if neg:
                 v, e = neg[0]
                 fails.append((
@@ -683,28 +818,60 @@ def check_lte(ctx, spec, rtol=1e-6, atol=1e-10, gated=True, later_Tn=None):
                     "negative; %+.3e at vw=%.4f); %s" % (e, v, len(neg), len(vals), vals[0][1],
                                                          vals[0][0], spec),
                     dict(kind="runaway", vw=v, **case), "runaway-sign:" + sid))
+            BRIDGE.append((spec, hy, judge, vals))
     elif res == 0:
-        lo = S.window_lo(hy)
-        E = mismatch(hy, lo)
+        lo = judge.lo
+        E = mismatch(hy, lo, judge, confirm=True)
         if E is None:
             ctx.count("lte_static_unscannable", case)
+            UNJUDGED.append(("static sentinel: no valid matching at the lowest velocity %.6f"
+                             % lo, case))
         elif abs(E) < MARGIN_E:
             ctx.count("lte_near_threshold", case, bucket="static")
         else:
-            ctx.count("lte_static", case, bucket=spec["kind"])
+            ctx.count("lte_static" + tag, case, bucket=spec["kind"])
             if E > 0:
-                sc = scan(ctx, hy, 16)
+                sc = scan(ctx, hy, judge, 16)
                 fails.append((
                     "findvwLTE returned 0 (static) but the entropy mismatch is %+.3e > 0 at "
                     "the smallest allowed velocity vw=%.6f (scan: %s); %s" % (
                         E, lo, " ".join("%+.0e" % e if e is not None else "n/a"
                                         for _v, e in sc), spec),
                     dict(kind="static", vw=lo, **case),
-                    CLASS_KEY if crude_guess_class(th, hy, aux) else "static-sign:" + sid))
+                    CLASS_KEY if crude_guess_class(hy, aux, judge) else "static-sign:" + sid))
+            else:
+                BRIDGE.append((spec, hy, judge, [(lo, E)]))
     else:
         fails.append(("findvwLTE returned %r; %s" % (res, spec), dict(kind="value", **case),
                       "lte-value"))
     return fails, (term, why, res, case)
+
+
+BRIDGE = []
+
+
+def check_sign_bridge(ctx):
+    """Hypothesis of Model/FindVwLTE.v lte_sentinel_bridge, validated: the shock-temperature
+    difference of the entropy-conserving matching (what the code tests) and the entropy
+    mismatch of the Tn-reaching matching (what the property speaks about) have the same sign."""
+    for spec, hy, judge, vals in BRIDGE[:ctx.n(12, 80)]:
+        pts = vals[::max(1, len(vals) // 6)][:6]
+        for v, E in pts:
+            if abs(E) < 10 * MARGIN_E:
+                continue
+            try:
+                d = lte_residual(hy, v)
+                ok = bool(hy.success)
+            except Exception:
+                continue
+            if not ok or abs(d) < 1e-4:
+                continue
+            ctx.count("sign_bridge_point")
+            if (d > 0) != (E > 0):
+                ctx.fail_input("sign bridge violated at vw=%.6f: shockTnuclDiff/Tn = %+.3e but "
+                               "the entropy mismatch of findMatching is %+.3e; %s" % (
+                                   v, d, E, spec), dict(kind="bridge", spec=spec, vw=v),
+                               key="sign-bridge:" + spec["kind"])
 
 
 # WallGoManager on a one-field quartic model: wallSpeedLTE after a re-setup
@@ -751,6 +918,94 @@ def _quartic_manager():
     return m, setup
 
 
+def mismatch_simple(hy, vw):
+    """mismatch of findMatching(vw) when no independent EOS is available (traced potential)"""
+    try:
+        (vp, vm, Tp, Tm), fb = S.find_matching(hy, vw)
+    except Exception:
+        return None
+    if vp is None or not hy.success or fb:
+        return None
+    return Tp * gam(vp) / (Tm * gam(vm)) - 1
+
+
+def through_manager(ctx, spec):
+    """other call path: the EOS handed to WallGoManager._initHydrodynamics; wallSpeedLTE() must
+    be what a solver built with the package defaults returns, and is judged like it"""
+    import WallGo
+    th = S.make_eos(spec)
+    m = WallGo.WallGoManager()
+    m._initHydrodynamics(th)
+    hy = m.hydrodynamics
+    cfg = WallGo.Config().configHydrodynamics
+    case = dict(spec=spec, path="WallGoManager._initHydrodynamics")
+    ctx.count("through_manager", case, bucket=spec["kind"])
+    got = (float(hy.TMaxHydro / hy.Tnucl), float(hy.TMinHydro / hy.Tnucl), hy.rtol, hy.atol)
+    want = (cfg.tmax, cfg.tmin, cfg.relativeTol, cfg.absoluteTol)
+    if any(abs(a - b) > 1e-12 * abs(b) for a, b in zip(got, want)):
+        ctx.fail_input("the manager built Hydrodynamics with (tmax, tmin, rtol, atol) = %r, "
+                       "configHydrodynamics says %r; %s" % (got, want, spec),
+                       dict(kind="manager", **case), key="manager-config")
+    try:
+        v = float(m.wallSpeedLTE())
+    except Exception as ex:
+        v = repr(ex)[:80]
+    _th, ref = S.make_hydro(spec, cfg.relativeTol, cfg.absoluteTol, cfg.tmax, cfg.tmin)
+    try:
+        w = float(ref.findvwLTE())
+    except Exception as ex:
+        w = repr(ex)[:80]
+    if v != w:
+        ctx.fail_input("WallGoManager.wallSpeedLTE() = %r but Hydrodynamics(th, %r, %r, %r, %r)"
+                       ".findvwLTE() = %r; %s" % (v, cfg.tmax, cfg.tmin, cfg.relativeTol,
+                                                  cfg.absoluteTol, w, spec),
+                       dict(kind="manager", **case), key="manager-path")
+    # and judged independently (prebuilt solver of the manager)
+    th2 = S.make_eos(spec)
+    m2 = WallGo.WallGoManager()
+    m2._initHydrodynamics(th2)
+    return check_lte(ctx, spec, prebuilt=(th2, m2.hydrodynamics), tag=":manager")
+
+
+def success_measured(ctx, spec):
+    """Hydrodynamics.success after matchDeflagOrHyb equals the generated definition success_of
+    applied to what scipy root reported (Props/C05.v success_definition)"""
+    import WallGo.hydrodynamics as H
+    th, hy = S.make_hydro(spec)
+    seen = []
+    orig = H.root
+
+    def root(f, x0, *a, **k):
+        sol = orig(f, x0, *a, **k)
+        seen.append((bool(sol.success), float(np.sum(np.asarray(sol.fun) ** 2)),
+                     int(sol.status)))
+        return sol
+    H.root = root
+    try:
+        for vw in (hy.vMin, 0.5 * (hy.vMin + hy.vJ), hy.vJ - 1e-10):
+            del seen[:]
+            try:
+                hy.matchDeflagOrHyb(vw)
+            except Exception:
+                pass
+            if not seen:
+                continue
+            ok, ss, status = seen[-1]
+            want = ok or ss < SUCCESS_THRESHOLD
+            ctx.count("success_definition_measured", None, bucket="hybr status %d -> %s" % (
+                status, want))
+            if bool(hy.success) != want:
+                ctx.fail_input("matchDeflagOrHyb(%r): Hydrodynamics.success = %r but scipy root "
+                               "reported success=%r status=%d sum(fun^2)=%.3e; %s" % (
+                                   vw, bool(hy.success), ok, status, ss, spec),
+                               dict(kind="success", spec=spec, vw=vw), key="success-definition")
+    finally:
+        H.root = orig
+
+
+SUCCESS_THRESHOLD = 1e-6       # overwritten from the source by _run (success_definition)
+
+
 def manager_history(ctx):
     """setup(Tn1) -> wallSpeedLTE() -> setup(Tn2) -> wallSpeedLTE(): the second answer is the
     one of a fresh manager at Tn2 and conserves the entropy flux at Tn2"""
@@ -774,7 +1029,7 @@ def manager_history(ctx):
                    "%.10g) but a fresh manager at Tn=%g gives %.10g" % (Tn2, v2, Tn1, v1, Tn2,
                                                                        want))
         elif 0 < v2 < 1:
-            E = mismatch(hy, v2)
+            E = mismatch_simple(hy, v2)
             if E is None or abs(E) > TOL_ENT_SHOOT:
                 bad = ("after re-setup at Tn=%g: findMatching(wallSpeedLTE()=%.8f) has "
                        "T+g+/(T-g-)-1 = %r" % (Tn2, v2, E))
@@ -785,6 +1040,8 @@ def manager_history(ctx):
 
 def direct(ctx, proved):
     WORST.clear()
+    del UNJUDGED[:]
+    del BRIDGE[:]
     sp = specs(ctx)
     terms, meta = [], []
     for spec, rtol, atol in KNOWN_INPUTS:
@@ -848,6 +1105,81 @@ def direct(ctx, proved):
     except Exception as ex:
         ctx.log("manager history raised", traceback.format_exc())
         ctx.broken.append("harness: manager history raised %r" % ex)
+
+    def report(tagname, spec, fails, mc, suffix):
+        for what, rep, key in fails:
+            if key != CLASS_KEY and suffix not in key:
+                key += suffix
+            ctx.fail_input("[%s] %s" % (tagname, what), rep, key=key)
+        if mc is not None and mc[0] is not None:
+            terms.append(mc[0])
+            meta.append((mc[2], mc[3]))
+
+    def guarded(tagname, spec, fn, suffix):
+        try:
+            fails, mc = fn()
+        except Exception as ex:
+            ctx.fail_input("[%s] harness/implementation raised %r for %s" % (tagname, ex, spec),
+                           dict(kind="raise", spec=spec, tb=traceback.format_exc()[-600:]),
+                           key="raises:%s%s" % (spec["kind"], suffix))
+            return
+        report(tagname, spec, fails, mc, suffix)
+    # strong supercooling: the first 2x2 solves do not converge there and the guard
+    # `or not self.success` of findvwLTE decides
+    for psi in (0.9, 0.95, 0.899):
+        for Tn in (0.3, 0.301, 0.32, 0.35, 0.4)[::ctx.n(2, 1)]:
+            spec = dict(kind="bag", psi=psi, Tn=Tn)
+            guarded("strong supercooling", spec, lambda: check_lte(ctx, spec), "")
+            ctx.count("family_strong_supercooling", spec)
+    # the EOS through the manager (other call path, config defaults)
+    for spec in pool[1::ctx.n(12, 4)]:
+        guarded("through WallGoManager", spec, lambda: through_manager(ctx, spec), ":manager")
+    # other solver parameters (tmax, tmin, rtol, atol) and integer-typed inputs
+    for k, spec in enumerate(pool[3::ctx.n(12, 4)]):
+        tmax, tmin, rt, at = [(5.0, 0.05, 1e-7, 1e-11), (20.0, 0.005, 1e-6, 1e-10),
+                              (10, 0.01, 1e-8, 1e-12), (3.0, 0.1, 1e-6, 1e-9)][k % 4]
+        guarded("tmax=%r tmin=%r rtol=%g atol=%g" % (tmax, tmin, rt, at), spec,
+                lambda: check_lte(ctx, spec, rtol=rt, atol=at, tmax=tmax, tmin=float(tmin)),
+                ":params")
+        ctx.count("family_other_parameters", dict(spec=spec, tmax=tmax, tmin=tmin))
+    for Tn in (1, 2):
+        spec = dict(kind="template", psiN=0.9, alN=0.1, cs2=0.3, cb2=0.28, Tn=Tn)
+        guarded("integer Tn, tmax", spec, lambda: check_lte(ctx, spec, tmax=10), ":int")
+    # call histories on one object: findvwLTE twice, and after other methods
+    for spec in pool[5::ctx.n(12, 4)]:
+        def twice():
+            th, hy = S.make_hydro(spec)
+            first = None
+            try:
+                first = float(hy.findvwLTE())
+            except Exception:
+                pass
+            try:
+                hy.findMatching(0.5 * (hy.vMin + hy.vJ))
+                hy.findHydroBoundaries(0.9 * hy.vJ)
+                hy.efficiencyFactor(min(0.99, hy.vJ + 0.02))
+            except Exception:
+                pass
+            fails, mc = check_lte(ctx, spec, prebuilt=(th, hy), tag=":second-call")
+            if mc is not None and first is not None and mc[2] != first:
+                fails.append(("findvwLTE() returned %r at the first call and %r after "
+                              "findMatching/findHydroBoundaries/efficiencyFactor on the same "
+                              "object; %s" % (first, mc[2], spec),
+                              dict(kind="history", spec=spec), "history-dependence"))
+            return fails, mc
+        guarded("second call on one object", spec, twice, ":second-call")
+        ctx.count("family_second_call", spec)
+    # the flag Hydrodynamics.success is what the generated definition says
+    for spec in pool[::ctx.n(10, 3)] + [dict(kind="bag", psi=0.9, Tn=0.3)]:
+        try:
+            success_measured(ctx, spec)
+        except Exception as ex:
+            ctx.broken.append("harness: success_measured raised %r" % ex)
+    try:
+        check_sign_bridge(ctx)
+    except Exception as ex:
+        ctx.log("sign bridge raised", traceback.format_exc())
+        ctx.broken.append("harness: sign bridge raised %r" % ex)
     # the repo's own tests run with atol = 1e-6: diagnostics, gated only when listed
     cand = []
     diag = [s for s in sp if s["kind"] == "bag"]
@@ -884,7 +1216,19 @@ def direct(ctx, proved):
         ctx.log("worst observed %-26s %.3e  %s" % (k, WORST[k][0], json.dumps(
             WORST[k][1], default=str)[:150]))
     ctx.cov["worst_observed"] = {k: v[0] for k, v in WORST.items()}
+    ctx.cov["nspecs"] = len(sp)
     return [s for s in sp if s["kind"] == "template"]
+
+
+def report_unjudged(ctx):
+    """fail closed: inputs that could not be judged"""
+    allowed = ctx.n(0, ctx.cov.get("nspecs", 0) // 100)
+    ctx.cov["unjudged"] = [u[0] + " " + json.dumps(u[1], default=str) for u in UNJUDGED[:20]]
+    if len(UNJUDGED) > allowed:
+        why, case = UNJUDGED[0]
+        ctx.fail_input("%d sampled inputs could not be judged (allowed %d), first: %s; %s" % (
+            len(UNJUDGED), allowed, why, json.dumps(case, default=str)),
+            dict(kind="unjudged", **case), key="unjudged-inputs")
 
 
 def _private_build(ctx):
@@ -923,12 +1267,25 @@ def _run(ctx):
     gen_ok = True
     try:
         text, info = gen_hydro_shock.generate_c05(*srcs)
+        ftext, facts = gen_hydro_shock.generate_lte_facts(srcs[0], srcs[1])
+        facts["manager"] = gen_hydro_shock.manager_lte_fact(vlib.read_src("manager.py"))
+        facts["manager_init"], defaults = gen_hydro_shock.manager_hydro_facts(
+            vlib.read_src("manager.py"), vlib.read_src("config.py"))
+        if [float(defaults[k]) for k in ("tmax", "tmin", "relativeTol", "absoluteTol")] != \
+                [10.0, 0.01, 1e-6, 1e-10]:
+            raise pyrx.TranslateError(
+                "ConfigHydrodynamics defaults %r are not the solver parameters the harness "
+                "samples (10, 0.01, 1e-6, 1e-10)" % defaults)
+        facts["eom"] = gen_hydro_shock.eom_lte_fact(vlib.read_src("equationOfMotion.py"))
+        stext, sfacts = gen_hydro_shock.success_definition(srcs[0])
+        facts["success"] = sfacts
+        global SUCCESS_THRESHOLD
+        SUCCESS_THRESHOLD = float(Fraction(sfacts["threshold"]))
+        text += stext
         ctx.write("HydroLTE.v", text, sources=dict(
             files=["src/WallGo/hydrodynamics.py", "src/WallGo/hydrodynamicsTemplateModel.py",
                    "src/WallGo/helpers.py"], sha=[vlib.sha(s) for s in srcs],
             spans=info["spans"], preconditions=info["preconditions"], facts=info["facts"]))
-        ftext, facts = gen_hydro_shock.generate_lte_facts(srcs[0], srcs[1])
-        facts["manager"] = gen_hydro_shock.manager_lte_fact(vlib.read_src("manager.py"))
         ctx.write("LteFacts.v", ftext, sources=dict(file="src/WallGo/hydrodynamics.py",
                                                     facts=facts))
     except pyrx.TranslateError as e:
@@ -952,6 +1309,8 @@ def _run(ctx):
     except Exception as ex:
         ctx.log("template decisions raised", traceback.format_exc())
         ctx.broken.append("correspondence: harness raised %r" % ex)
+    report_unjudged(ctx)
+    ctx.log("known-finding hits: %r" % (getattr(ctx, "known_count", {}),))
     ctx.cov["rule"] = (
         "EOS: bag on the grid psi in {.2,.4,.5,.6,.7,.8,.9,.95} x Tn/Tc in {.5,.6,.7,.8,.9,.95} "
         "plus Tn >= Tc and random points; two-step toy model (fixed + random couplings); "
